@@ -86,17 +86,29 @@ Outcome(k, tg, dflt, set) ==
   ELSE LET final == Final(k, dflt, set) IN
        IF Valid(k, tg, final, set.s = "val") THEN [ok |-> final] ELSE [err |-> <<"f">>]
 
+\* The ValidatorTag(key) option: validators count only when they are written under the key the option names
+\* ("validate" without the option); a tag under another key is no validator at all.
+NoTag == [t |-> "", op |-> "none", p |-> 0]
+Honoured(vkey, vopt) == vkey = (IF vopt = "" THEN "validate" ELSE vopt)
+VCombos == {<<"check", "check">>, <<"validate", "check">>, <<"check", "">>}
+
 VARIABLES kind, cs
 vars == <<kind, cs>>
 Init == kind \in Kinds /\ cs = <<>>
-Next == /\ cs = <<>> /\ UNCHANGED kind
+NextPlain == /\ cs = <<>> /\ UNCHANGED kind
         /\ \E tg \in TagsOf(BaseOf(kind)), d \in Defaults(kind), s \in Settings(kind) :
               cs' = <<tg, d, s>> /\ PrintT(ToJson([kind |-> kind, tag |-> tg.t, dflt |-> d, set |-> s,
                                                     exp |-> [ideal |-> Outcome(kind, tg, d, s), alts |-> <<>>]]))
+NextV == /\ cs = <<>> /\ UNCHANGED kind
+         /\ \E tg \in {x \in TagsOf(BaseOf(kind)) : x.op \in {"required", "nonzero", "min", "minmax"}}, d \in Defaults(kind), s \in Settings(kind), vc \in VCombos :
+              cs' = <<tg, d, s, vc>> /\ PrintT(ToJson([kind |-> kind, tag |-> tg.t, dflt |-> d, set |-> s, vkey |-> vc[1], vopt |-> vc[2],
+                                                        exp |-> [ideal |-> Outcome(kind, IF Honoured(vc[1], vc[2]) THEN tg ELSE NoTag, d, s), alts |-> <<>>]]))
+Next == NextPlain \/ NextV
+EffTag == IF Len(cs) = 4 /\ ~Honoured(cs[4][1], cs[4][2]) THEN NoTag ELSE cs[1]
 View == <<kind, cs = <<>> >>
 \* C04 on the model: a successful outcome satisfies the tag; a default or setting that breaks it never succeeds
-OkIsValid == cs # <<>> => LET o == Outcome(kind, cs[1], cs[2], cs[3]) IN ("ok" \in DOMAIN o => ValidProp(kind, cs[1], o.ok))
-BreakFails == cs # <<>> => LET o == Outcome(kind, cs[1], cs[2], cs[3])
+OkIsValid == cs # <<>> => LET o == Outcome(kind, EffTag, cs[2], cs[3]) IN ("ok" \in DOMAIN o => ValidProp(kind, EffTag, o.ok))
+BreakFails == cs # <<>> => LET o == Outcome(kind, EffTag, cs[2], cs[3])
                                final == Final(kind, cs[2], cs[3]) IN
-                           (cs[3].s # "junk" /\ ~ValidProp(kind, cs[1], final) => "err" \in DOMAIN o)
+                           (cs[3].s # "junk" /\ ~ValidProp(kind, EffTag, final) => "err" \in DOMAIN o)
 ==========================================================================
